@@ -167,7 +167,7 @@ Judge ==
          /\ ((\A o \in Oids : Intact(S, xs.src, o) => Intact(T, xs.src, o)) \/ Say("VERDICT", "C11", "SourceUnmodified"))
          /\ ((dev' = {} => C04_Withheld(L, L.failed, okDirs', T, xs.dst)) \/ Say("VERDICT", "C04", "Withheld"))
          /\ ((dev' = {} => C04_Complete(L, T)) \/ Say("VERDICT", "C04", "RetryCompletes"))
-         /\ ((xs.verify => \A o \in xs.new : T[xs.dst][o] # "bad_u") \/ Say("VERDICT", "C07", "VerifyRetainsMismatch"))
+         /\ ((xs.verify => \A o \in xs.new : T[xs.dst][o] \notin {"bad_u", "bad_p"}) \/ Say("VERDICT", "C07", "VerifyRetainsMismatch"))
     \* an upload of something the destination already had (C11: not re-sent)
     /\ (op = "Put" => (a.x \notin xs.pre \/ Say("VERDICT", "C11", "Resent")))
     \* the source is never written during a transfer
